@@ -87,7 +87,7 @@ PUSH_LOOP = '''{
 }'''
 
 sm_new = Fn(F_SM, 'ScannerMode', 'new', ret='r', props=P + ['C06'],
-    sig_replace=[('new < P , T >', 'new'), ('patterns : P', 'patterns: Vec<Pattern>'), ('mode_transitions : T', 'mode_transitions: Vec<(usize, usize)>'),
+    sig_replace=[('< P , T >', ''), ('patterns : P', 'patterns: Vec<Pattern>'), ('mode_transitions : T', 'mode_transitions: Vec<(usize, usize)>'),
                  ('where P : IntoIterator < Item = Pattern > , T : IntoIterator < Item = ( usize , usize ) > ,', '')],
     spec='''
 ensures
@@ -108,13 +108,13 @@ ensures
     ])
 
 ssb_new = Fn(F_SB, 'SimpleScannerBuilder', 'new', ret='r', props=P,
-    sig_replace=[('new < P >', 'new'), ('patterns : P', 'patterns: Vec<Pattern>'), ('where P : IntoIterator < Item = Pattern > ,', '')],
+    sig_replace=[('< P >', ''), ('patterns : P', 'patterns: Vec<Pattern>'), ('where P : IntoIterator < Item = Pattern > ,', '')],
     spec='''
 ensures r.scanner_mode.name@ == "INITIAL"@, r.scanner_mode.patterns@ == patterns@, r.scanner_mode.transitions@.len() == 0
 ''')
 
 add_patterns = Fn(F_SB, 'ScannerBuilder', 'add_patterns', ret='r', props=P,
-    sig_replace=[('add_patterns < P , S >', 'add_patterns<S>'), ('patterns : P', 'patterns: Vec<S>'), ('where P : IntoIterator < Item = S > , S : AsRef < str > ,', 'where S: AsRef<str>,')],
+    sig_replace=[('< P , S >', '<S>'), ('patterns : P', 'patterns: Vec<S>'), ('where P : IntoIterator < Item = S > , S : AsRef < str > ,', 'where S: AsRef<str>,')],
     spec='''
 ensures
     // C01: with add_patterns the token type is the pattern's index; one mode named INITIAL, no lookaheads, no transitions
